@@ -556,8 +556,9 @@ def beginTransaction (env : Env) (l : Led) (i : Ibtp) (ck : Checked) : Except St
   let id : TxId := { frm := ck.src, to := ck.dst, index := i.index }
   let t := toU64 i.timeout
   if ck.src.bxh ≠ ck.dst.bxh then
-    let t' := if ck.src.bxh = env.cfg.bxh then 0 else t
-    match tmBeginInter l env.height id t' ck.targetErr with
+    -- since the `fix:` commit "the source hub records the deadline of an inter-BitXHub request" the deadline is recorded on the
+    -- source hub too (before, the source hub passed 0 and the record carried none)
+    match tmBeginInter l env.height id t ck.targetErr with
     | .error _ => .error "2080000"
     | .ok r => .ok r
   else
